@@ -20,7 +20,7 @@ import (
 
 func init() {
 	Register(&World{Name: "pipeline", Props: []string{"C07", "C08", "C09"}, Concurrent: true, Timed: false, MaxSteps: 60000, Run: pipelineWorld})
-	ExpectedProbes["pipeline/C07"] = []string{"depth-4", "iterator-agrees", "stream-agrees", "reducer-collect", "reducer-last", "reducer-one", "reducer-reduce", "iterator-equal", "xslices-agrees", "laziness-checked", "end-sticky-checked", "op-filter", "op-map", "op-first", "op-while", "op-compact", "op-compactfunc", "op-peek", "op-chunk", "op-chunkflat", "op-runssep", "op-runsflat", "op-runshead", "op-flatmap", "op-join", "last-n-zero", "chan-leaf-fed-live"}
+	ExpectedProbes["pipeline/C07"] = []string{"depth-4", "iterator-agrees", "stream-agrees", "reducer-collect", "reducer-last", "reducer-one", "reducer-reduce", "iterator-equal", "xslices-agrees", "laziness-checked", "end-sticky-checked", "op-filter", "op-map", "op-first", "op-while", "op-compact", "op-compactfunc", "op-peek", "op-chunk", "op-chunkflat", "op-runssep", "op-runsflat", "op-runshead", "op-flatmap", "op-join", "last-n-zero", "chan-leaf-fed-live", "flatten-aliased-slices"}
 	ExpectedProbes["pipeline/C08"] = []string{"fault-src-error", "fault-cb-error", "fault-ctx-precancelled", "fault-transient", "fault-ctx-deadline-midcall", "error-with-chunk-pending", "error-inside-flatten-inner", "error-in-mapstream", "error-in-batch", "error-in-merge", "single-fault-exhaustive", "multi-fault", "reducer-error", "fault-not-reached", "chan-leaf-fed-live", "chan-feeder-slow-under-deadline"}
 	ExpectedProbes["pipeline/C09"] = []string{"own-abandoned-early", "own-read-to-end", "own-after-error", "own-reducer", "own-flatten-inner", "own-join-later-args", "own-merge-inputs", "own-mapstream", "own-batch", "own-samplestream"}
 }
@@ -952,7 +952,7 @@ func isInterleaving(prog *pnode, got []int, full bool) bool {
 // ---- iterator instantiation and reducers (C07) ---------------------------------------------------
 
 func pipelineIteratorChecks(r *R, prog *pnode, X []int, pulls []map[int]int, slack int) {
-	ib := &ibuild{byID: map[int]*countIter{}}
+	ib := &ibuild{r: r, byID: map[int]*countIter{}}
 	it := ib.build(prog)
 	for id, c := range ib.byID {
 		if c.calls != 0 {
@@ -993,7 +993,7 @@ func pipelineIteratorChecks(r *R, prog *pnode, X []int, pulls []map[int]int, sla
 	}
 	r.Probe("iterator-agrees")
 	// reducers
-	fresh := func() iterator.Iterator[int] { return (&ibuild{byID: map[int]*countIter{}}).build(prog) }
+	fresh := func() iterator.Iterator[int] { return (&ibuild{r: r, byID: map[int]*countIter{}}).build(prog) }
 	if c := iterator.Collect(fresh()); fmt.Sprint(c) != fmt.Sprint(X) && !(len(c) == 0 && len(X) == 0) {
 		r.Violate("C07", "reducer/iterator.Collect", "Collect = %v, reference %v (program %v)", c, X, prog)
 		return
@@ -1138,6 +1138,37 @@ func pipelineXslices(r *R) {
 	}
 	if !cmp("Repeat", xslices.Repeat(7, k), mdl(&pnode{op: "repeat", n: k, m: 7})) {
 		return
+	}
+	// slices of slices that share memory: the same slice twice, overlapping views, Chunk's views
+	{
+		base := append([]int(nil), xs...)
+		var views [][]int
+		switch r.Choose(3, "alias-kind") {
+		case 0:
+			views = [][]int{base, base}
+		case 1:
+			a, b := r.Choose(len(base)+1, "alias-a"), r.Choose(len(base)+1, "alias-b")
+			views = [][]int{base[:a], base[b:], base[:a]}
+		default:
+			views = xslices.Chunk(base, k)
+			views = append(views, views...)
+		}
+		want := xslices.Join(views...)
+		gotS, err := stream.Collect(NewCtx(nil, "alias").C, stream.FlattenSlices(stream.FromIterator(iterator.Slice(views))))
+		if err != nil || (fmt.Sprint(gotS) != fmt.Sprint(want) && len(gotS)+len(want) > 0) {
+			r.Violate("C07", "flattenslices/aliased-slices", "stream.FlattenSlices over %v (slices sharing memory) gives %v %v, xslices.Join gives %v", views, gotS, err, want)
+			return
+		}
+		if fmt.Sprint(base) != fmt.Sprint(xs) {
+			r.Violate("C07", "flattenslices/input-modified", "stream.FlattenSlices changed the slices it was given: %v became %v", xs, base)
+			return
+		}
+		gotI := iterator.Collect(iterator.Flatten(iterator.Map(iterator.Slice(views), func(v []int) iterator.Iterator[int] { return iterator.Slice(v) })))
+		if fmt.Sprint(gotI) != fmt.Sprint(want) && len(gotI)+len(want) > 0 {
+			r.Violate("C07", "flatten/aliased-slices", "iterator.Flatten over %v gives %v, xslices.Join gives %v", views, gotI, want)
+			return
+		}
+		r.Probe("flatten-aliased-slices")
 	}
 	acc := 0
 	for _, x := range xs {
